@@ -26,7 +26,8 @@ class Case:
 def mk(tree, method, target, headers=(), body=b'', version='HTTP/1.1', entry='proc', ws='all', flush='ok', app='real',
        alloc=10000, raw=None, kind='valid', note=None):
     raw = G.req(method, target, version, headers, body) if raw is None else raw
-    line = S.proc_line(raw, app=app, alloc=alloc, ws=ws, flush=flush) if entry == 'proc' else S.preq_line(raw, ws=ws, flush=flush)
+    line = (S.proc_line(raw, app=app, alloc=alloc, ws=ws, flush=flush) if entry == 'proc' else S.aexec_line(raw, legacy=(entry == 'aexecl')) if entry.startswith('aexec')
+            else S.preq_line(raw, ws=ws, flush=flush))
     return Case(line=line, entry=entry, method=method, target=target, headers=list(headers), raw=raw, tree=tree, ws=ws,
                 flush=flush, app=app, alloc=alloc, kind=kind, note=note)
 
@@ -99,6 +100,21 @@ def spec_lookup(tree, target):
     links = {k[len(tree.cwd) + 1:]: v for k, v in tree.links.items() if k.startswith(tree.cwd + b'/')}
     comps = norm_comps(p)
     rel = b'/'.join(comps)
+    if rel in links and not p.endswith(b'/'):
+        # a link to a file: a RELATIVE target is resolved against the directory the link lives in (symlink(7))
+        t = links[rel]
+        if t.startswith(b'/'): return ('unspecified', 'symlink with an absolute target')
+        stack = rel.split(b'/')[:-1]
+        for comp in t.split(b'/'):
+            if comp in (b'', b'.'): continue
+            if comp == b'..':
+                if not stack: return ('unspecified', 'symlink leaving the root')
+                stack.pop()
+            else: stack.append(comp)
+        res_rel = b'/'.join(stack)
+        if any(res_rel == l or res_rel.startswith(l + b'/') for l in links): return ('unspecified', 'symlink to a symlink')
+        if res_rel in files: return ('hit', res_rel, files[res_rel], 'symlink')
+        return ('unspecified', 'symlink to something that is not a regular file')
     if any(rel == l or rel.startswith(l + b'/') for l in links): return ('unspecified', 'symlink')
     dirs = set()
     for f in files:
@@ -139,13 +155,14 @@ def climbs(target):
 
 # ------------------------------------------------------------------ request-line well-formedness (C04/C14 view)
 REQLINE = re.compile(rb'^\s*(\S+) (\S+) (\S+)\s*$')
+RUST_WS = '\t\n\x0b\x0c\r \x85\xa0\u1680\u2000\u2001\u2002\u2003\u2004\u2005\u2006\u2007\u2008\u2009\u200a\u2028\u2029\u202f\u205f\u3000'
 def request_is_parsable(raw, alloc=10000):
     """independent judgement: first line (up to LF) is `METHOD SP target SP VERSION` with known tokens, valid UTF-8"""
     buf = (raw + b'\0' * alloc)[:alloc] if len(raw) < alloc else raw[:alloc]
     first = buf.split(b'\n', 1)[0]
     try: s = first.decode('utf-8')
     except UnicodeDecodeError: return False
-    parts = s.strip().split(' ', 2)
+    parts = s.strip(RUST_WS).split(' ', 2)   # str::trim strips Unicode White_Space; Python's str.strip() would also strip U+001C..U+001F
     if len(parts) != 3: return False
     m, t, v = parts[0], parts[1], parts[2]
     if ' ' in v:
